@@ -429,6 +429,51 @@ func runC16(p *core.Prog, r *core.Report) {
 		})
 		r.Check(okFinal, "C16.R2", "RemoteWorker.work/invalid-argument-final", "an InvalidArgument status from tier 2 (deterministic failure) is returned as is, not retried", "InvalidArgument branch wraps the error as retryable or is missing", p.Pos(wf.Pos()))
 		r.Check(okRetry, "C16.R2", "RemoteWorker.work/others-retryable", "every other receive error is wrapped in a RetryableErr", "fallback branch does not build a RetryableErr", p.Pos(wf.Pos()))
+		// the retry loop recognises retryable errors by their exact dynamic type (type switch): a RetryableErr must therefore
+		// be stored unwrapped in Result.Error — wrapping it (fmt.Errorf("…%w", retryable)) silently turns it into a fatal error
+		exactType := false
+		for _, cl := range core.WithClosures(p.Func(pkgWork, "RemoteWorker.Work")) {
+			core.Instrs(cl, func(in ssa.Instruction) {
+				if t, ok := in.(*ssa.TypeAssert); ok && typeName(t.AssertedType) == "*RetryableErr" {
+					exactType = true
+				}
+			})
+		}
+		usesAs := false
+		for _, cl := range core.WithClosures(p.Func(pkgWork, "RemoteWorker.Work")) {
+			core.Instrs(cl, func(in ssa.Instruction) {
+				if c := core.CalleeOf(in); c != nil && calleeKey(c) == "errors.As" {
+					usesAs = true
+				}
+			})
+		}
+		nRes, wrapped := 0, ""
+		core.Instrs(wf, func(in ssa.Instruction) {
+			al, ok := in.(*ssa.Alloc)
+			if !ok {
+				return
+			}
+			pt, ok := al.Type().(*types.Pointer)
+			if !ok {
+				return
+			}
+			if n, ok := pt.Elem().(*types.Named); !ok || n.Obj() != resT.Obj() {
+				return
+			}
+			for _, v := range core.LiteralFields(al)["Error"] {
+				nRes++
+				direct := false
+				if mi, ok := v.(*ssa.MakeInterface); ok {
+					if c, ok := mi.X.(*ssa.Call); ok && core.CommonCallee(c.Common()) == nre {
+						direct = true
+					}
+				}
+				if !direct && core.Trace(v, 0).HasCall(nre) {
+					wrapped = p.Pos(al.Pos())
+				}
+			}
+		})
+		r.Check(nRes >= 5 && (wrapped == "" || (usesAs && !exactType)), "C16.R2", "RemoteWorker.work/retryable-unwrapped", "every retryable error is handed to the retry loop in the form the loop recognises (a bare *RetryableErr, since the loop uses a type switch)", "a RetryableErr is wrapped before being stored in Result.Error at "+wrapped+": the type switch in Work treats it as fatal", p.Pos(wf.Pos()))
 		// connect error → retryable
 		okConn := false
 		for _, c := range core.FindInstrs(wf, func(in ssa.Instruction) bool {
